@@ -210,6 +210,18 @@ async fn get_ep(rqctx: RequestContext<Arc<Shared>>, path: Path<IdPath>) -> Resul
     slow(rqctx.context().clone(), path.into_inner().id).await
 }
 
+/// The same handler, written the way an endpoint may legitimately be written:
+/// it clones what it needs out of the RequestContext, drops the context (and
+/// with it the Arc<DropshotState> the context holds) and only then does its
+/// long work.
+#[endpoint { method = GET, path = "/d/{id}" }]
+async fn get_nocx_ep(rqctx: RequestContext<Arc<Shared>>, path: Path<IdPath>) -> Result<Response<Body>, HttpError> {
+    let shared = rqctx.context().clone();
+    let id = path.into_inner().id;
+    drop(rqctx);
+    slow(shared, id).await
+}
+
 #[endpoint { method = PUT, path = "/b/{id}" }]
 async fn put_ep(
     rqctx: RequestContext<Arc<Shared>>,
@@ -240,7 +252,9 @@ enum Script {
     /// one complete round trip, then idle (keep-alive)
     IdleKeepAlive,
     /// request sent, handler entered before close()
-    InFlight { big: bool, leave: Leave },
+    /// `nocx`: the endpoint takes what it needs from its RequestContext and
+    /// drops the context before it starts its (held) work
+    InFlight { big: bool, leave: Leave, nocx: bool },
     /// part of the request head sent before close(); afterwards completed or dropped
     HalfHead { complete: bool },
     /// head and part of the body sent before close(); afterwards completed or dropped
@@ -297,7 +311,7 @@ impl Scenario {
                 let v = match s {
                     Script::IdleFresh => json!({"k": "idle"}),
                     Script::IdleKeepAlive => json!({"k": "keepalive"}),
-                    Script::InFlight { big, leave } => json!({"k": "inflight", "big": big, "leave": match leave {
+                    Script::InFlight { big, leave, nocx } => json!({"k": "inflight", "big": big, "nocx": nocx, "leave": match leave {
                         Leave::Stay => "stay", Leave::BeforeClose => "before", Leave::AfterClose => "after" }}),
                     Script::HalfHead { complete } => json!({"k": "halfhead", "complete": complete}),
                     Script::HalfBody { complete } => json!({"k": "halfbody", "complete": complete}),
@@ -319,6 +333,7 @@ impl Scenario {
                 "keepalive" => Script::IdleKeepAlive,
                 "inflight" => Script::InFlight {
                     big: b("big"),
+                    nocx: b("nocx"),
                     leave: match s.get("leave").and_then(|x| x.as_str()).unwrap_or("stay") {
                         "before" => Leave::BeforeClose,
                         "after" => Leave::AfterClose,
@@ -639,8 +654,8 @@ async fn run_client_async(cx: &Ctx<'_>, id: u32, script: &Script) {
     sh.push(Ev::Conn(id));
     match script {
         Script::Late => unreachable!(),
-        Script::InFlight { big, leave } => {
-            let fut = sender.send(&path);
+        Script::InFlight { big, leave, nocx } => {
+            let fut = sender.send(&if *nocx { format!("/d/{}", id) } else { path.clone() });
             if !wait_log(sh, MID, |l| l.contains(&Ev::Entered(id))).await {
                 note("missed:not-entered");
             }
@@ -776,8 +791,8 @@ fn run_client(cx: &Ctx, id: u32, script: &Script) {
             sh.push(Ev::SawEof(id));
             sh.push(Ev::ClientGone(id));
         }
-        Script::InFlight { big, leave } => {
-            let _ = c.send(&request("GET", &format!("/h/{}", id), &[], None));
+        Script::InFlight { big, leave, nocx } => {
+            let _ = c.send(&request("GET", &format!("/{}/{}", if *nocx { "d" } else { "h" }, id), &[], None));
             if sh.wait_for(MID, |l| l.contains(&Ev::Entered(id))).is_none() {
                 note("missed:not-entered");
             }
@@ -844,7 +859,7 @@ fn run_scenario(sc: &Scenario) -> Outcome {
     let mut big = HashMap::new();
     let mut orphan = HashMap::new();
     for (c, s) in &sc.conns {
-        if let Script::InFlight { big: b, leave } = s {
+        if let Script::InFlight { big: b, leave, .. } = s {
             big.insert(*c, *b);
             orphan.insert(*c, *leave != Leave::Stay);
         }
@@ -866,6 +881,7 @@ fn run_scenario(sc: &Scenario) -> Outcome {
         let mut api = ApiDescription::new();
         api.register(get_ep).unwrap();
         api.register(put_ep).unwrap();
+        api.register(get_nocx_ep).unwrap();
         api.register(warm_ep).unwrap();
         let mut config = ConfigDropshot::default();
         config.bind_address = "127.0.0.1:0".parse().unwrap();
@@ -1003,14 +1019,15 @@ fn line_for(sc: &Scenario, out: &Outcome, group: &'static str) -> Line {
         let k = match s {
             Script::IdleFresh => "idle".to_string(),
             Script::IdleKeepAlive => "keepalive".to_string(),
-            Script::InFlight { big, leave } => format!(
-                "inflight-{}{}",
+            Script::InFlight { big, leave, nocx } => format!(
+                "inflight-{}{}{}",
                 match leave {
                     Leave::Stay => "stay",
                     Leave::BeforeClose => "gone-before-close",
                     Leave::AfterClose => "gone-during-shutdown",
                 },
-                if *big { "-1MiB" } else { "" }
+                if *big { "-1MiB" } else { "" },
+                if *nocx { "-context-dropped" } else { "" }
             ),
             Script::HalfHead { complete } => format!("halfhead-{}", if *complete { "completed" } else { "dropped" }),
             Script::HalfBody { complete } => format!("halfbody-{}", if *complete { "completed" } else { "dropped" }),
@@ -1079,7 +1096,8 @@ fn fixed(detached: bool, transport: Transport) -> Vec<Scenario> {
             via_drop: false,
         });
     };
-    let stay = |big| Script::InFlight { big, leave: Leave::Stay };
+    let stay = |big| Script::InFlight { big, leave: Leave::Stay, nocx: false };
+    let gone = |leave, nocx| Script::InFlight { big: false, leave, nocx };
     // idle server
     add(vec![], 0, 0);
     add(vec![], 3, 0);
@@ -1090,8 +1108,13 @@ fn fixed(detached: bool, transport: Transport) -> Vec<Scenario> {
     add(vec![stay(true)], 2, 200);
     add(vec![stay(false), stay(false), stay(true), stay(false)], 2, 250);
     // a handler whose client has gone
-    add(vec![Script::InFlight { big: false, leave: Leave::BeforeClose }], 1, 250);
-    add(vec![Script::InFlight { big: false, leave: Leave::AfterClose }, stay(false)], 0, 250);
+    add(vec![gone(Leave::BeforeClose, false)], 1, 250);
+    add(vec![gone(Leave::AfterClose, false), stay(false)], 0, 250);
+    // ... and whose endpoint dropped its RequestContext before its long work:
+    // alone, among others, with the client staying
+    add(vec![gone(Leave::BeforeClose, true)], 2, 250);
+    add(vec![gone(Leave::BeforeClose, true), stay(false), gone(Leave::AfterClose, true), stay(true)], 1, 250);
+    add(vec![Script::InFlight { big: false, leave: Leave::Stay, nocx: true }, gone(Leave::AfterClose, true)], 0, 250);
     // half-sent requests
     add(vec![Script::HalfHead { complete: true }], 0, 200);
     add(vec![Script::HalfHead { complete: false }, stay(false)], 1, 250);
@@ -1118,11 +1141,11 @@ fn mixed(rng: &mut Rng, detached: bool, k: usize, transport: Transport) -> Scena
     for i in 0..k {
         let roll = rng.below(100);
         let s = if roll < 35 {
-            Script::InFlight { big: k <= 16 && rng.chance(1, 5), leave: Leave::Stay }
+            Script::InFlight { big: k <= 16 && rng.chance(1, 5), leave: Leave::Stay, nocx: rng.chance(1, 3) }
         } else if roll < 47 {
-            Script::InFlight { big: false, leave: Leave::BeforeClose }
+            Script::InFlight { big: false, leave: Leave::BeforeClose, nocx: rng.chance(1, 2) }
         } else if roll < 57 {
-            Script::InFlight { big: false, leave: Leave::AfterClose }
+            Script::InFlight { big: false, leave: Leave::AfterClose, nocx: rng.chance(1, 2) }
         } else if roll < 65 {
             Script::IdleFresh
         } else if roll < 75 {
@@ -1132,14 +1155,14 @@ fn mixed(rng: &mut Rng, detached: bool, k: usize, transport: Transport) -> Scena
         } else if roll < 91 && raw {
             Script::HalfBody { complete: rng.chance(1, 2) }
         } else if roll < 91 {
-            Script::InFlight { big: false, leave: Leave::Stay }
+            Script::InFlight { big: false, leave: Leave::Stay, nocx: false }
         } else {
             Script::Late
         };
         conns.push((i as u32 + 1, s));
     }
     if !conns.iter().any(|(_, s)| matches!(s, Script::InFlight { leave: Leave::Stay, .. })) {
-        conns[0].1 = Script::InFlight { big: false, leave: Leave::Stay };
+        conns[0].1 = Script::InFlight { big: false, leave: Leave::Stay, nocx: false };
     }
     Scenario {
         transport,
